@@ -82,3 +82,8 @@ CORPUS += [
     M("device-authenticate-swallows-failure", "msmart/base_device.py", "        except (ProtocolError, TimeoutError) as e:\n            raise AuthenticationError(e) from e", "        except (ProtocolError, TimeoutError) as e:\n            _LOGGER.error(e)"),
     M("device-authenticate-no-handshake", "msmart/base_device.py", "            await self._lan.authenticate(token, key)\n", "            pass\n"),
 ]
+# round 9 (growth): dropping the session is not restricted, installing one is
+CORPUS += [
+    M("n-deauthenticate-clears-key", L, "    def _encode_encrypted_request(self, packet_id: int, data: bytes) -> bytes:", "    def deauthenticate(self) -> None:\n        self._local_key = None\n        self._local_key_expiration = None\n\n    def _encode_encrypted_request(self, packet_id: int, data: bytes) -> bytes:", "S"),
+    M("key-installed-by-another-method", L, "    def _encode_encrypted_request(self, packet_id: int, data: bytes) -> bytes:", "    def preset_key(self, key: bytes) -> None:\n        self._local_key = key\n\n    def _encode_encrypted_request(self, packet_id: int, data: bytes) -> bytes:"),
+]
